@@ -2,6 +2,7 @@
 package c13
 
 import (
+	"os"
 	"context"
 	"fmt"
 	"hash/fnv"
@@ -50,6 +51,10 @@ type Scenario struct {
 	// ExtraLabels[i]: series i carries an additional label (its name differs per series), so
 	// the series of one response do not all have the same label names
 	ExtraLabels []bool `json:"extra_labels,omitempty"`
+	// TwinLookbackS: once the cache holds the slices of the main query, the main query and a second one
+	// over another window of the same expression (same end, same step) are asked at the same time by two
+	// callers; each must get what it gets when asked alone. 0 = no such phase
+	TwinLookbackS int64 `json:"twin_lookback_s,omitempty"`
 }
 
 var steps = []int64{10, 15, 30, 60, 60, 300, 300, 300, 420, 660, 900, 1800, 2700, 3600, 5400, 7200, 9000, 10800, 14400, 14460, 18000, 21600}
@@ -148,8 +153,21 @@ func draw(rt *rapid.T) Scenario {
 			sc.SecondStepS = 0
 		}
 	}
+	if rapid.IntRange(0, 3).Draw(rt, "twin") == 0 {
+		switch rapid.IntRange(0, 2).Draw(rt, "twinkind") {
+		case 0: // whole slices more or fewer
+			sc.TwinLookbackS = sc.LookbackS + 7200*int64(rapid.IntRange(-3, 3).Draw(rt, "twin2h"))
+		case 1:
+			sc.TwinLookbackS = sc.LookbackS + sc.StepS*int64(rapid.IntRange(-30, 30).Draw(rt, "twinsteps"))
+		default:
+			sc.TwinLookbackS = rapid.Int64Range(sc.StepS, 2*sc.LookbackS+sc.StepS).Draw(rt, "twinlb")
+		}
+		if sc.TwinLookbackS < sc.StepS || sc.TwinLookbackS == sc.LookbackS || sc.TwinLookbackS/sc.StepS > 4000 {
+			sc.TwinLookbackS = 0
+		}
+	}
 	if rapid.IntRange(0, 9).Draw(rt, "faulty") < 2 {
-		modes := []string{simprom.ModeHTTP500, simprom.ModeStall, simprom.ModeTruncated, simprom.ModeBadData, simprom.ModeReset, simprom.ModeJSONServerErr}
+		modes := []string{simprom.ModeHTTP500, simprom.ModeStall, simprom.ModeTruncated, simprom.ModeBadData, simprom.ModeReset, simprom.ModeJSONServerErr, simprom.ModeJSONCanceled, simprom.ModeTruncClean}
 		sc.Fault = &SliceFault{Ord: rapid.IntRange(0, 30).Draw(rt, "ford"), Mode: modes[rapid.IntRange(0, len(modes)-1).Draw(rt, "fmode")]}
 	}
 	return sc
@@ -218,6 +236,9 @@ func (b *presenceBackend) Answer(req *simprom.Request, serial int) (int, string)
 	step := int64(stepF * 1000)
 	if step <= 0 || end < start {
 		return 400, `{"status":"error","errorType":"bad_data","error":"bad range"}`
+	}
+	if os.Getenv("VERIF_DEBUG") != "" {
+		fmt.Printf("DEBUG request start=%s end=%s step=%s (%s .. %s)\n", req.Form.Get("start"), req.Form.Get("end"), req.Form.Get("step"), time.UnixMilli(start).UTC().Format(time.RFC3339Nano), time.UnixMilli(end).UTC().Format(time.RFC3339Nano))
 	}
 	b.mu.Lock()
 	b.grids[((start%step)+step)%step] = struct{}{}
@@ -296,13 +317,20 @@ type oneResult struct {
 	slices   int
 	faults   map[string]int
 	order    string // arrival order of slice responses
+	twin     promapi.MetricTimeRanges
+	twinErr  error
 }
 
-func runOnce(t *testing.T, sc *Scenario, sched detsim.SchedConfig, record bool, stepS, warmStepS int64) oneResult {
+// runOnce: lookbackS is the window of the query whose result is returned in ranges; with twinS > 0 the cache is
+// first filled by that query, then it and a query over twinS are asked again concurrently by two callers.
+func runOnce(t *testing.T, sc *Scenario, sched detsim.SchedConfig, record bool, stepS, warmStepS, lookbackS, twinS int64) oneResult {
 	var res oneResult
 	res.live = true
 	endAbs := base.Add(time.Duration(sc.EndOffsetNs))
 	be := &presenceBackend{sc: sc, endAbsNs: endAbs.UnixNano(), grids: map[int64]struct{}{}}
+	mkRange := func(lb int64, st int64) absRange {
+		return absRange{start: endAbs.Add(-time.Duration(lb) * time.Second), end: endAbs, step: time.Duration(st) * time.Second}
+	}
 	res.leak = detsim.Bubble(t, func() {
 		s := detsim.NewSched(sched, record, detsim.States)
 		verifhook.Yield = s.HookYield
@@ -336,28 +364,49 @@ func runOnce(t *testing.T, sc *Scenario, sched detsim.SchedConfig, record bool, 
 			s.Yield("start", "caller")
 			if warmStepS > 0 {
 				// an earlier query for the same expression and range with another step fills the shared cache
-				_, _ = fg.RangeQuery(context.Background(), "m", absRange{
-					start: endAbs.Add(-time.Duration(sc.LookbackS) * time.Second), end: endAbs, step: time.Duration(warmStepS) * time.Second,
-				})
+				_, _ = fg.RangeQuery(context.Background(), "m", mkRange(lookbackS, warmStepS))
 				be.mu.Lock()
 				be.grids, be.starts, be.ends = map[int64]struct{}{}, nil, nil
 				be.mu.Unlock()
 			}
-			rr, err := fg.RangeQuery(context.Background(), "m", absRange{
-				start: endAbs.Add(-time.Duration(sc.LookbackS) * time.Second), end: endAbs, step: time.Duration(stepS) * time.Second,
-			})
+			rr, err := fg.RangeQuery(context.Background(), "m", mkRange(lookbackS, stepS))
 			res.err = err
 			if rr != nil {
 				res.ranges = rr.Series.Ranges
+			}
+			if twinS > 0 && err == nil {
+				// the cache is warm now: both windows at once
+				var wg sync.WaitGroup
+				wg.Add(2)
+				go func() {
+					defer wg.Done()
+					s.Name("twinA")
+					s.Yield("start", "twinA")
+					ra, erra := fg.RangeQuery(context.Background(), "m", mkRange(lookbackS, stepS))
+					res.err = erra
+					res.ranges = nil
+					if ra != nil {
+						res.ranges = ra.Series.Ranges
+					}
+				}()
+				go func() {
+					defer wg.Done()
+					s.Name("twinB")
+					s.Yield("start", "twinB")
+					rb, errb := fg.RangeQuery(context.Background(), "m", mkRange(twinS, stepS))
+					res.twinErr = errb
+					if rb != nil {
+						res.twin = rb.Series.Ranges
+					}
+				}()
+				wg.Wait()
 			}
 			if sc.Fault != nil && err != nil {
 				// the fault is gone (it hit one request ordinal): asking again must give the whole
 				// answer - nothing half-done may have been kept from the failed attempt
 				res.firstErr = err
 				res.retried = true
-				rr, err = fg.RangeQuery(context.Background(), "m", absRange{
-					start: endAbs.Add(-time.Duration(sc.LookbackS) * time.Second), end: endAbs, step: time.Duration(stepS) * time.Second,
-				})
+				rr, err = fg.RangeQuery(context.Background(), "m", mkRange(lookbackS, stepS))
 				res.err = err
 				res.ranges = nil
 				if rr != nil {
@@ -427,7 +476,7 @@ func run(t *testing.T, sc Scenario, record bool) *detsim.Outcome {
 	}
 	for i, pl := range plan {
 		sched := pl.sched
-		r := runOnce(t, &sc, sched, record && i == 0, pl.step, pl.warm)
+		r := runOnce(t, &sc, sched, record && i == 0, pl.step, pl.warm, sc.LookbackS, 0)
 		if pl.warm > 0 {
 			out.Probes["second_query_other_step"]++
 		}
@@ -541,6 +590,33 @@ func run(t *testing.T, sc Scenario, record bool) *detsim.Outcome {
 			}
 			if str != firstStr {
 				out.AddViolation("order-dependent-result", fmt.Sprintf("%s: result differs from schedule 0 of the same workload:\n  %s\n  %s", who, firstStr, str))
+			}
+		}
+	}
+	if sc.TwinLookbackS > 0 && sc.Fault == nil && firstStr != "" && len(out.Violations) == 0 {
+		// what the second window yields when it is asked alone, on a cold cache
+		alone := runOnce(t, &sc, sc.Scheds[0], false, sc.StepS, 0, sc.TwinLookbackS, 0)
+		both := runOnce(t, &sc, sc.Scheds[len(sc.Scheds)-1], false, sc.StepS, 0, sc.LookbackS, sc.TwinLookbackS)
+		out.Sched.Decisions += alone.stats.Decisions + both.stats.Decisions
+		trace = trace*1099511628211 ^ both.stats.Trace
+		out.SimNanos += alone.simNs + both.simNs
+		who := fmt.Sprintf("two callers at once on a warm cache (windows %ds and %ds, step=%ds, end=%s, concurrency=%d)", sc.LookbackS, sc.TwinLookbackS, sc.StepS, endAbs.Format(time.RFC3339Nano), sc.Concurrency)
+		switch {
+		case !alone.live || !both.live:
+			out.AddViolation("liveness", who+": RangeQuery did not return (leak: "+alone.leak+both.leak+")")
+		case alone.err != nil || both.err != nil || both.twinErr != nil:
+			out.AddViolation("unexpected-error", fmt.Sprintf("%s: %v / %v / %v", who, alone.err, both.err, both.twinErr))
+		default:
+			out.Probes["concurrent_windows"]++
+			sort.Stable(alone.ranges)
+			sort.Stable(both.ranges)
+			sort.Stable(both.twin)
+			fmt.Fprintf(digest, "%s|%s|", both.ranges.String(), both.twin.String())
+			if both.ranges.String() != firstStr {
+				out.AddViolation("concurrent-result-differs", fmt.Sprintf("%s: the %ds window differs from what the same query returned alone:\n  alone: %s\n  now:   %s", who, sc.LookbackS, firstStr, both.ranges.String()))
+			}
+			if both.twin.String() != alone.ranges.String() {
+				out.AddViolation("concurrent-result-differs", fmt.Sprintf("%s: the %ds window differs from what the same query returned alone:\n  alone: %s\n  now:   %s", who, sc.TwinLookbackS, alone.ranges.String(), both.twin.String()))
 			}
 		}
 	}
